@@ -2,6 +2,7 @@
 
 from __future__ import annotations
 
+import math
 import re
 import sys
 from decimal import Decimal
@@ -311,6 +312,10 @@ class FloatLiteral(Literal[float]):
         super().__init__(token, value)
 
     def __str__(self) -> str:
+        if math.isinf(self.value):
+            # A literal beyond the range of a float. `inf` would be read back as a
+            # variable name.
+            return "1.0e999" if self.value > 0 else "-1.0e999"
         rv = repr(self.value)
         if "e" in rv and "." not in rv:
             # `1e+16` would be read back as an integer literal.
